@@ -1,4 +1,7 @@
 import FxVerif.Proofs.C06
+import FxVerif.Proofs.C05Sorted
+import FxVerif.Proofs.C05Ext
+import FxVerif.Proofs.C05Orig
 /-!
 # C05 — every outgoing transfer is in exactly one place and is settled exactly once
 
@@ -21,6 +24,49 @@ theorem source_shapes_as_modelled :
     cancelRefundTerms = ["tx.Token.Amount", "tx.Fee.Amount"] ∧
     tryAttestationOrder = ["SetLastObservedEventNonce", "SetLastObservedBlockHeight", "processAttestation",
       "cleanupTimedOutBatches", "cleanupTimeOutBridgeCall"] := by decide
+
+/-- more shapes the model is parametrised by, as read from `/repo` now: who pays a fee increase and in which token, who
+a refunded bridge call pays, what applying a bridge-call result does per outcome, what `EndBlocker` cleans up -/
+theorem source_shapes_settlement :
+    incFeePayer = .msgSender ∧ incFeeTokenCheck = true ∧ callRefundReceiver = .refund ∧
+    resultRefundsOnFailure = true ∧ resultRefundsOnSuccess = false ∧
+    resultDeletesOnFailure = true ∧ resultDeletesOnSuccess = true ∧ endBlockerCleanups = [] := by decide
+
+/-- the argument an inner call receives for parameter `name` -/
+def argOf (params args : List String) (name : String) : Option String :=
+  ((params.zip args).find? (fun p => p.1 == name)).map (·.2)
+
+/-- the value a record literal gives field `field` -/
+def fieldOf (fields : List (String × String)) (field : String) : Option String :=
+  (fields.find? (fun f => f.1 == field)).map (·.2)
+
+/-- `queued_is_supplied`, the data flow in the source (regenerated from the Go AST): every field of the stored transfer /
+bridge-call record is filled from the parameter of that name, and that parameter receives, through both call layers,
+the message field of that name — destination, token amount, fee, sender; sender, refund address, coins, target, call
+data, memo.  Swapping two arguments of equal type anywhere on the way breaks this. -/
+theorem supplied_fields_reach_the_record :
+    -- SendToExternal → AddToOutgoingPool → addToOutgoingPool → OutgoingTransferTx
+    fieldOf sendRecordFields "Sender" = some "sender.String()" ∧ fieldOf sendRecordFields "DestAddress" = some "receiver" ∧
+    fieldOf sendRecordFields "Token" = some "types.NewERC20Token(amount.Amount,tokenContract)" ∧
+    fieldOf sendRecordFields "Fee" = some "types.NewERC20Token(fee.Amount,tokenContract)" ∧
+    fieldOf sendRecordFields "Id" = some "txID" ∧
+    (["sender", "receiver", "amount", "fee"].map (argOf sendPoolParams sendPoolArgs)) =
+      [some "sender", some "receiver", some "amount", some "fee"] ∧
+    (["sender", "receiver", "amount", "fee"].map (argOf sendAddParams sendMsgArgs)) =
+      [some "sender", some "msg.Dest", some "msg.Amount", some "msg.BridgeFee"] ∧
+    -- BridgeCall → AddOutgoingBridgeCall → BuildOutgoingBridgeCall → OutgoingBridgeCall
+    fieldOf bridgeCallRecordFields "Sender" = some "types.ExternalAddrToStr(k.moduleName,sender.Bytes())" ∧
+    fieldOf bridgeCallRecordFields "Refund" = some "types.ExternalAddrToStr(k.moduleName,refundAddr.Bytes())" ∧
+    fieldOf bridgeCallRecordFields "To" = some "types.ExternalAddrToStr(k.moduleName,to.Bytes())" ∧
+    fieldOf bridgeCallRecordFields "Tokens" = some "tokens" ∧
+    fieldOf bridgeCallRecordFields "Data" = some "hex.EncodeToString(data)" ∧
+    fieldOf bridgeCallRecordFields "Memo" = some "hex.EncodeToString(memo)" ∧
+    fieldOf bridgeCallRecordFields "Nonce" = some "nextID" ∧ fieldOf bridgeCallRecordFields "Timeout" = some "bridgeCallTimeout" ∧
+    (["sender", "refundAddr", "to", "data", "memo"].map (argOf bridgeCallBuildParams bridgeCallBuildArgs)) =
+      [some "sender", some "refundAddr", some "to", some "data", some "memo"] ∧
+    (["sender", "refundAddr", "baseCoins", "to", "data", "memo"].map (argOf bridgeCallAddParams bridgeCallMsgArgs)) =
+      [some "msg.GetSenderAddr()", some "msg.GetRefundAddr()", some "msg.Coins", some "msg.GetToAddr()",
+       some "msg.MustData()", some "msg.MustMemo()"] := by decide
 
 /-- the partition invariant holds in every reachable state -/
 theorem reachable_inv (s0 : State) (h0 : IsInit s0) (ops : List Op) : Inv (run s0 ops) :=
@@ -176,7 +222,12 @@ theorem increase_fee_exact (s s' : State) (id : Nat) (who : Addr) (t : Token) (a
       add ≤ getBal s.bal (who, t) ∧
       (∀ k, getBal s'.bal k = if k = (who, t) then getBal s.bal k - add else getBal s.bal k) ∧
       s'.settled = s.settled ∧ s'.batches = s.batches := by
+  have hpayer : ∀ tx : Tx, incFeePayerOf tx who = who := by
+    have : incFeePayer = .msgSender := by decide
+    intro tx; simp [incFeePayerOf, this]
+  have htc : incFeeTokenCheck = true := by decide
   unfold doIncFee at h
+  simp only [hpayer, htc, true_and] at h
   split at h
   · cases h
   · split at h
@@ -288,6 +339,145 @@ theorem pick_respects_base_and_size (t : Token) (base n : Nat) (l : List Tx) :
     simpa using this
   · rw [pick_is_fee_descending_prefix]
     exact length_take_le _ _
+
+/-- the pool is in descending store-key order (`contract ‖ fee ‖ id`, the order the reverse iterator of
+`IterateUnbatchedTransactions` walks it in) in every reachable state — `AddUnbatchedTx` after a cancelled batch, a fee
+increase, a selection all keep it -/
+theorem pool_sorted (s0 : State) (h0 : IsInit s0) (ops : List Op) : PoolSorted (run s0 ops).pool :=
+  sorted_run (by rw [h0.2.2.2.1]; exact Pairwise.nil) ops
+
+/-- `fee_order_optimal`: in every reachable state a successful `RequestBatch` takes a fee-optimal selection:
+(1) every transfer of that token left in the pool pays at most as much as every selected one;
+(2) if the batch is not full, nothing of that token with fee ≥ base fee is left;
+(3) no choice of at most `OutgoingTxBatchSize` eligible transfers (fee ≥ base fee) of that token from the pool — any
+    sub-multiset, listed in pool order — has a larger total fee than the selected batch -/
+theorem fee_order_optimal (s0 : State) (h0 : IsInit s0) (ops : List Op) (t : Token) (mf bf : Nat) (fr : String)
+    (s' : State) (n : Nat) (h : doReqBatch (run s0 ops) t mf bf fr = (s', .ok n)) :
+    ∃ b, s'.batches = (run s0 ops).batches ++ [b] ∧ b.nonce = n ∧
+      (∀ x ∈ b.txs, ∀ y ∈ s'.pool, y.token = t → y.fee ≤ x.fee) ∧
+      (b.txs.length < outgoingTxBatchSize → ∀ y ∈ s'.pool, y.token = t → y.fee < bf) ∧
+      (∀ l' : List Tx, l'.Sublist ((run s0 ops).pool.filter (fun x => decide (x.token = t))) →
+        l'.length ≤ outgoingTxBatchSize → (∀ x ∈ l', bf ≤ x.fee) → totalFee l' ≤ totalFee b.txs) := by
+  have hs := pool_sorted s0 h0 ops
+  obtain ⟨hn, hs'⟩ := reqBatch_ok h
+  generalize run s0 ops = s at *
+  subst hs'
+  refine ⟨_, rfl, hn.symm, pick_dominates hs t bf _, pick_complete hs t bf _, fun l' hsub hlen hel => ?_⟩
+  have hd := sorted_token_fees hs t
+  simp only [pick_is_fee_descending_prefix, takeWhile_eq_filter_of_desc bf hd]
+  have hl' : l'.filter (fun x => decide (bf ≤ x.fee)) = l' := by
+    rw [filter_eq_self]; intro x hx; simpa using hel x hx
+  rw [totalFee_eq_feeSum, totalFee_eq_feeSum, ← hl']
+  exact feeSum_sublist_le_take (hsub.filter _) (Pairwise.sublist (filter_sublist) hd) _ (by rw [hl']; exact hlen)
+
+/-- `batch_nonce_fresh` (and bridge-call nonces): along every operation list the nonces of all batches ever created
+(ghost log `created`, in creation order) are exactly `1, 2, …, nextBatchId − 1` — so no nonce is ever issued twice, also
+after the batch that carried it was executed, cancelled or timed out — every stored batch is one of them, and the next
+successful `RequestBatch` issues a nonce no batch ever had.  Same for outgoing bridge calls. -/
+theorem batch_nonce_fresh (s0 : State) (h0 : IsInit s0) (ops : List Op) :
+    let s := (runExt s0 {} ops).1
+    let x := (runExt s0 {} ops).2
+    s = run s0 ops ∧
+    x.created.map (·.nonce) = range' 1 (s.nextBatchId - 1) ∧ (x.created.map (·.nonce)).Nodup ∧
+    (∀ b ∈ s.batches, b ∈ x.created) ∧
+    x.createdCalls.map (·.nonce) = range' 1 (s.nextCallId - 1) ∧ (x.createdCalls.map (·.nonce)).Nodup ∧
+    (∀ c ∈ s.calls, c ∈ x.createdCalls) ∧
+    (∀ t mf bf fr s' n, doReqBatch s t mf bf fr = (s', .ok n) → ∀ b ∈ x.created, b.nonce ≠ n) ∧
+    (∀ a r to d m cs s' n, doBridgeCall s a r to d m cs = (s', .ok n) → ∀ c ∈ x.createdCalls, c.nonce ≠ n) := by
+  have hn := N_run (N_init h0) ops
+  simp only
+  refine ⟨runExt_fst _ _ _, hn.nonces, by rw [hn.nonces]; exact nodup_range', hn.sub, hn.cnonces,
+    by rw [hn.cnonces]; exact nodup_range', hn.csub, ?_, ?_⟩
+  · intro t mf bf fr s' n h b hb hbn
+    have h1 := (reqBatch_ok h).1
+    have h2 : b.nonce ∈ range' 1 ((runExt s0 {} ops).1.nextBatchId - 1) := by
+      rw [← hn.nonces]; exact mem_map_of_mem hb
+    simp only [mem_range'_1] at h2
+    have := hn.npos
+    omega
+  · intro a r to d m cs s' n h c hc hcn
+    obtain ⟨_, _, h1⟩ := queued_is_supplied_call _ _ a r to d m cs n h
+    have h2 : c.nonce ∈ range' 1 ((runExt s0 {} ops).1.nextCallId - 1) := by
+      rw [← hn.cnonces]; exact mem_map_of_mem hc
+    simp only [mem_range'_1] at h2
+    have := hn.cpos
+    omega
+
+/-- `observed_execution_settles` (with the environment: every observed event is one the bridge contract can have
+produced — heights non-decreasing, `state_lastBatchNonces[token] < nonce`, `block.number < timeout`, operators read from
+FxBridgeLogic.sol): along every admissible operation list, when the external chain executes a batch, fxcore still holds
+it: the claim is applied (no panic, so the bridge does not stall), every transfer of the batch is logged as executed, and
+— for every continuation, admissible or not — none of them is ever refunded.  The proof needs that an executed batch
+cancels only lower nonces *of its own token* and that time-outs are taken at the observed external height only. -/
+theorem observed_execution_settles (s0 : State) (h0 : IsInit s0) (ops : List Op) (h t n : Nat)
+    (ha : AdmissibleRun s0 {} (ops ++ [.observe h (.batch t n)])) :
+    ∃ b ∈ (run s0 ops).batches, b.token = t ∧ b.nonce = n ∧
+      (doObserve (run s0 ops) h (.batch t n)).2 = .ok ((run s0 ops).eventNonce + 1) ∧
+      ∀ tx ∈ b.txs, ∀ ops2 : List Op, ∀ e ∈ (run s0 (ops ++ [.observe h (.batch t n)] ++ ops2)).settled,
+        e.isCall = false → e.id = tx.id → e.how = .executed := by
+  obtain ⟨ha1, ha2⟩ := admissibleRun_append ha
+  have hj := J_run (J_init h0) ops ha1
+  rw [runExt_fst] at hj
+  obtain ⟨b, hb, hbt, hbn, hok, hlog⟩ := admissible_execution_applies_aux hj ha2.1
+  refine ⟨b, hb, hbt, hbn, hok, fun tx htx ops2 e he hc hid => ?_⟩
+  have hmem : (⟨false, tx.id, .executed, 0, [(tx.token, tx.amount + tx.fee)]⟩ : Settle)
+      ∈ (run s0 (ops ++ [.observe h (.batch t n)] ++ ops2)).settled := by
+    rw [run_append, run_append]
+    obtain ⟨l, hl⟩ := settled_grows_run (run (run s0 ops) [.observe h (.batch t n)]) ops2
+    rw [hl]
+    exact mem_append_left _ (hlog tx htx)
+  cases hhow : e.how with
+  | executed => rfl
+  | refunded =>
+    exact (executed_never_refunded s0 h0 _ _ e hmem he rfl hc hid.symm rfl hhow).elim
+
+/-- `queued_is_supplied`, over histories: after every operation list, every transfer waiting in the pool or inside a
+batch is, field for field (id, sender, destination, token, amount), a transfer of the creation log `sent` — the log gets
+exactly the sender's input on a successful `SendToExternal` and nothing else — and its fee is the original fee plus
+exactly the fee increases that succeeded for that id; ids in the creation log are unique; every stored batch / outgoing
+bridge call is, unchanged, the record that was created (timeout, fee receiver, transfers / tokens, target, data, memo). -/
+theorem queued_is_supplied_always (s0 : State) (h0 : IsInit s0) (ops : List Op) :
+    let s := run s0 ops
+    let x := (runExt s0 {} ops).2
+    (∀ tx ∈ s.pool ++ s.batches.flatMap (·.txs), ∃ o ∈ x.sent, o.id = tx.id ∧ o.sender = tx.sender ∧ o.dest = tx.dest ∧
+      o.token = tx.token ∧ o.amount = tx.amount ∧ tx.fee = o.fee + raisedSum x.raised tx.id) ∧
+    (x.sent.map (·.id)).Nodup ∧ (∀ b ∈ s.batches, b ∈ x.created) ∧ (∀ c ∈ s.calls, c ∈ x.createdCalls) := by
+  have hq := QI_run (Q_init h0) (inv_init h0) ops
+  have hn := N_run (N_init h0) ops
+  rw [runExt_fst] at hq hn
+  simp only
+  exact ⟨hq.queued, by rw [hq.sentIds]; exact nodup_range', hn.sub, hn.csub⟩
+
+/-- `refund_exact`, over histories: after every operation list, every refund of a transfer in the settlement log went to
+the account that created that transfer, in its token, and its amount is the amount plus the original fee plus every fee
+increase paid for that id — everything that was ever paid in for it, once (`settled_once`); every refund of an outgoing
+bridge call went to the refund address of the bridge call that was created under that nonce, with exactly its tokens. -/
+theorem refund_is_what_was_paid (s0 : State) (h0 : IsInit s0) (ops : List Op) :
+    let s := run s0 ops
+    let x := (runExt s0 {} ops).2
+    (∀ e ∈ s.settled, e.isCall = false → e.how = .refunded →
+      ∃ o ∈ x.sent, o.id = e.id ∧ e.to = o.sender ∧ e.coins = [(o.token, o.amount + o.fee + raisedSum x.raised e.id)]) ∧
+    (∀ e ∈ s.settled, e.isCall = true → e.how = .refunded →
+      ∃ c ∈ x.createdCalls, c.nonce = e.id ∧ e.to = c.refund ∧ e.coins = c.tokens) := by
+  have hq := QI_run (Q_init h0) (inv_init h0) ops
+  have hr := RN_run (R_init h0) (N_init h0) ops
+  rw [runExt_fst] at hq hr
+  simp only
+  refine ⟨hq.refunds, fun e he hc hh => ?_⟩
+  obtain ⟨c, hcm, h1, h2⟩ := hr.calls e he hc
+  exact ⟨c, hcm, h1.symm, (h2 hh).1, (h2 hh).2⟩
+
+/-- non-vacuity of the environment hypothesis: an admissible run in which two batches of different tokens are in flight
+and the later one is executed first, then the earlier one -/
+example : AdmissibleRun (init 2 [((0, 0), 100), ((0, 1), 100)] {}) {}
+    [.observe 10 .other,
+     .send 0 "0x0000000000000000000000000000000000000001" 0 5 2,
+     .send 0 "0x0000000000000000000000000000000000000001" 1 5 2,
+     .reqBatch 0 1 0 "0x0000000000000000000000000000000000000002", .block 1,
+     .reqBatch 1 1 0 "0x0000000000000000000000000000000000000002",
+     .observe 11 (.batch 1 2), .observe 12 (.batch 0 1)] := by
+  simp only [AdmissibleRun, admissible]
+  decide
 
 /-- non-vacuity: a reachable state with a transfer in the pool, one in a batch, one executed and one refunded -/
 example : ∃ ops : List Op, let s := run (init 1 [((0, 0), 100)] {}) ops
